@@ -294,6 +294,16 @@ def run_unit(unit: dict) -> dict:
                     acc.violation(f"H3 `db reindex` accepted the new broken, non-whitelisted page {frag!r} (whitelist {wl3}; page rows {[p_ for p_ in d3.pages if p_['path'] == frag]})", hcase, cls="db reindex accepts a non-whitelisted broken page")
                 elif spaced not in wl3:
                     acc.violation(f"H3 the whitelist lost {spaced!r}: {wl3}", hcase, cls="whitelist entry damaged")
+                else:
+                    # H4: the same pair through `db create` (its whitelist test is a separate piece of code)
+                    acc.count("scenarioH.create_runs")
+                    r4 = db.cli(root, "db", "create")
+                    d4h = db.dump_index(root)
+                    wl4 = _whitelist(root)
+                    if r4.rc == 0:
+                        acc.violation(f"H4 `db create` accepted the broken, non-whitelisted page {frag!r} next to the whitelisted {spaced!r} (whitelist now {wl4}; page rows {[p_ for p_ in d4h.pages if p_['path'] == frag]})", hcase, cls="db create accepts a non-whitelisted broken page")
+                    elif frag in wl4:
+                        acc.violation(f"H4 refused `db create` added {frag!r} to the whitelist: {wl4}", hcase, cls="refused page added to the whitelist")
                 acc.sig(("H", r3.rc != 0))
             for extra in (spaced, frag):
                 if (root / extra).exists():
